@@ -34,6 +34,16 @@ CHECKS = {
             "Sabotaged copies must be rejected.",
             TRUST + "standard normal quantiles for STEPD from scipy.stats.norm.ppf.",
             "TLA+ spec + TLC model checking + TLC trace validation of recorded executions", "5/C05"),
+    "C06": ("LFR.tla: confusion matrix of the epoch (pseudo-counts), the four rates as integer pairs, changed-only exponentially weighted "
+            "statistics for tracked rates, test schedule (burn_in, subsample), Monte-Carlo bounds as environment records keyed by "
+            "<<rounded rate, denominator>> that must be stable across uses and resets (cache), state from the flags of tracked rates, recs, "
+            "all_drift_states. TLC: all {0,1}^2 cell sequences to depth 6/9 for 6 tracked subsets x burn_in x subsample: each sample moves its "
+            "own cell, a rate's statistic moves only on its own cells, untracked rates never move or matter, lifecycle refinement. Conformance: "
+            "every cell sequence of length 4/6 and regime-changing streams on the real class: TLC recomputes cells, statistics, schedule and "
+            "decision at each step from the bounds the implementation used, requires a key's first bounds inside an independent 20000-draw "
+            "bracket (exact Beta bounds for its order statistics) and identical bounds on every later use.",
+            TRUST + "_bounds / _r_stat / _confusion are optional private reads; parallelize=False.",
+            "TLA+ spec + TLC model checking + TLC trace validation with bracketed stochastic bounds", "5/C06"),
     "C07": ("HDM.tla: exact integer histograms on the common range with floor(sqrt(reference size)) bins, Hellinger / Jensen-Shannon / a user "
             "divergence, feature average, epsilon, bootstrapped-first-epsilon bookkeeping, running mean / deviation, t- or k-sigma threshold, "
             "drift rule from the detect_batch-th batch, reference growth / replacement, reset incl. the positional halving and proxy batch of "
